@@ -1768,6 +1768,8 @@ pub mod vudp {
 
     struct MirrorSink {
         out: Arc<Mutex<Vec<VDatagram>>>,
+        /// the client's stream is congested: this many datagrams more are dropped, as the codecs' sinks do
+        drop_next: Arc<std::sync::atomic::AtomicUsize>,
     }
 
     #[async_trait]
@@ -1775,6 +1777,13 @@ pub mod vudp {
         type Input = forwarder::UdpDatagram;
 
         async fn write(&mut self, d: forwarder::UdpDatagram) -> io::Result<datagram_pipe::SendStatus> {
+            if self
+                .drop_next
+                .fetch_update(Ordering::SeqCst, Ordering::SeqCst, |n| n.checked_sub(1))
+                .is_ok()
+            {
+                return Ok(datagram_pipe::SendStatus::Dropped);
+            }
             self.out.lock().unwrap().push(VDatagram {
                 source: d.meta.source,
                 destination: d.meta.destination,
@@ -1788,6 +1797,7 @@ pub mod vudp {
         tx: Option<mpsc::UnboundedSender<VDatagram>>,
         idle: Arc<AtomicBool>,
         out: Arc<Mutex<Vec<VDatagram>>>,
+        drop_next: Arc<std::sync::atomic::AtomicUsize>,
         flows: Box<dyn Fn() -> usize + Send + Sync>,
         relayed: Arc<(AtomicU64, AtomicU64)>,
         gauge: Box<dyn Fn() -> i64 + Send + Sync>,
@@ -1811,11 +1821,12 @@ pub mod vudp {
         let (tx, rx) = mpsc::unbounded_channel();
         let idle = Arc::new(AtomicBool::new(false));
         let out = Arc::new(Mutex::new(vec![]));
+        let drop_next = Arc::new(std::sync::atomic::AtomicUsize::new(0));
         let relayed = Arc::new((AtomicU64::new(0), AtomicU64::new(0)));
         let mut pipe = udp_pipe::DuplexPipe::new(
             (
                 Box::new(MirrorSource { rx, idle: idle.clone() }),
-                Box::new(MirrorSink { out: out.clone() }),
+                Box::new(MirrorSink { out: out.clone(), drop_next: drop_next.clone() }),
             ),
             (shared, fsource, fsink),
             {
@@ -1838,6 +1849,7 @@ pub mod vudp {
             tx: Some(tx),
             idle,
             out,
+            drop_next,
             flows,
             relayed,
             gauge: Box::new(move || metrics.verif_outbound_udp_sockets()),
@@ -1855,6 +1867,11 @@ pub mod vudp {
         /// the left pipe has processed everything sent so far and waits for more
         pub fn left_idle(&self) -> bool {
             self.idle.load(Ordering::SeqCst)
+        }
+
+        /// the client's sink reports the next `n` datagrams as dropped (a congested client stream)
+        pub fn drop_next(&self, n: usize) {
+            self.drop_next.store(n, Ordering::SeqCst);
         }
 
         /// datagrams the pipe delivered to the client since the last call
